@@ -120,6 +120,14 @@ pub fn operator_fields() -> Vec<BI> {
     add(Ty::Str, bang("!tolower", vec![s("ABC")]));
     add(Ty::Str, bang("!toupper", vec![s("abc")]));
     add(Ty::Str, bang("!repr", vec![int(1)]));
+    // an empty list literal as either operand of the list-typed operators
+    add(list(Ty::Int), bang("!if", vec![E::Bool(true), li(), E::List(vec![])]));
+    add(list(Ty::Int), bang("!if", vec![E::Bool(false), E::List(vec![]), li()]));
+    add(list(Ty::Int), bang("!listconcat", vec![E::List(vec![]), li()]));
+    add(list(Ty::Int), bang("!listconcat", vec![li(), E::List(vec![])]));
+    add(list(Ty::Int), bang("!listremove", vec![li(), E::List(vec![])]));
+    add(Ty::Int, bang("!size", vec![E::List(vec![])]));
+    add(Ty::Bit, bang("!empty", vec![E::List(vec![])]));
     add(Ty::Int, bang("!size", vec![li()]));
     add(Ty::Int, bang("!size", vec![s("abc")]));
     add(Ty::Int, bang("!size", vec![dg()]));
